@@ -85,6 +85,10 @@ class ObjectFactory:
             raise TypeError("core certificate type not supported")
 
     def _build_pie_key(self, key, cls):
+        if key.key_block.cryptographic_algorithm is None:
+            raise ValueError("core key block has no cryptographic algorithm")
+        if key.key_block.cryptographic_length is None:
+            raise ValueError("core key block has no cryptographic length")
         algorithm = key.key_block.cryptographic_algorithm.value
         length = key.key_block.cryptographic_length.value
         value = key.key_block.key_value.key_material.value
@@ -130,6 +134,10 @@ class ObjectFactory:
         return pobjects.OpaqueObject(value, opaque_type)
 
     def _build_pie_split_key(self, secret):
+        if secret.key_block.cryptographic_algorithm is None:
+            raise ValueError("core key block has no cryptographic algorithm")
+        if secret.key_block.cryptographic_length is None:
+            raise ValueError("core key block has no cryptographic length")
         algorithm = secret.key_block.cryptographic_algorithm.value
         return pobjects.SplitKey(
             cryptographic_algorithm=algorithm,
